@@ -9,6 +9,18 @@ NOTE = ("Trusted: Coq 8.16.1 kernel (vm_compute; no native_compute); no axioms (
         "for the failing-input search only. ")
 
 CLAIMED = {
+ "C21": ("Theorems for all terms: == is the structural equivalence up to variable names (reflexive, symmetric, transitive), equal terms feed "
+         "the hasher the same sequence, and from_vec/collect, iter, improper_from_vec, extend, indexing, head/tail, is_improper and contains "
+         "are the corresponding operations on the element sequence with the improper tail as final element.",
+         "6/C21", "Coq proof: equivalence/hash/list laws over the term model + exhaustive small-term differential run through the real PartialEq, Hash, HashMap and list API",
+         "The byte-level Hasher protocol of derive(Hash) is abstracted to a token sequence; Display is checked by a Python oracle only."),
+ "C24": ("BOUNDED proof + check. The relation definitions are re-translated from src/relation/*.rs on every run; for every list over {1,2} "
+         "(length <= 3/4) the engine model is evaluated inside Coq and proved (forallb by vm_compute, lifted by forallb_forall) to give "
+         "exactly the answers of the Vec-based definition for append (both directions), member (positions), member1 (distinct values), rember, "
+         "distinct, cons/first/rest/empty. Beyond that scope all argument modes are compared with Vec-based definitions on the implementation. "
+         "permute is refuted (known finding, pinned by test_permute_1).",
+         "6/C24", "Coq proof exhaustive over a stated finite scope (kernel evaluation of the engine on translated definitions) + all-modes instance oracle",
+         "Unbounded theorems (for all lists) are not proved; the finite scope is stated in each theorem."),
  "C16": ("PARTIAL. Proved per propagator (ltefd, plusfd, minusfd, timesfd, diseqfd): with all operands ground the constraint is decided "
          "exactly by the integer relation, and the repaired propagators re-run instead of storing themselves when their own pruning bound an "
          "operand. The global statement (every answer of every program satisfies every posted constraint) is decided by brute-force "
